@@ -948,7 +948,7 @@ def judge(ctx, seg, cases, hist_id):
             if mrows_ok != ok:
                 ctx.disagree({"segment": seg.label, "k": c["k"], "mode": c["mode"], "kind": kind, "what": "rows after continue"},
                              f"ok={ok} {why}", f"model rowsOK={mrows_ok} row window={mrow}")
-            if mrow and mrows_ok:
+            if mrow and mrows_ok and not cleans_on_restart():
                 ctx.disagree({"segment": seg.label, "k": c["k"], "what": "model rowsOK inside its own row window"}, c["mflags"], "-")
         c["rows_ok"] = ok
 
